@@ -254,6 +254,34 @@ def rule_peer_state_verified(ctx):
         same = len(a) > 1 and any(x[0] == "call" and x[1] == BSS + "::verify" and x[2] and (x[2][0] == a[1] or x[2][0] in subterms(a[1]) or a[1] in subterms(x[2][0])) for blk in g.blocks if blk["t"]["k"] == "call" for x in [ctx.T(g).call_term(blk["t"])])
         ctx.ob(R, "announced state verified before it is published", ok and same, "send_replace(req.state) is dominated by the success of req.state.verify()" if ok and same else
                "a peer's block-store state is published as its announcement without (successful) verify() of that very state: requests can be handed to a peer for blocks an inconsistent announcement does not cover", g.loc(c["t"].get("ln")))
+    # every verified announcement replaces the previous one - whole and unconditionally: an announcement that is skipped
+    # (same head but a higher first block after pruning, or a lower one) leaves a stale range, and requests are handed to a
+    # peer for blocks it said it no longer stores / withheld from a peer that has them
+    for g, c in pubs:
+        api = c["q"].rsplit("::", 1)[1]
+        cfgg = ctx.cfg(g, with_cancel=False)
+        oks = [bi for bi, b in enumerate(g.blocks) for st in b["s"] if st["k"] == "assign" and st["p"]["l"] in Q.ret_locals(g) and not st["p"].get("pr") and st["r"]["k"] == "agg" and st["r"].get("variant") == "Ok"]
+        always = bool(oks) and all(cfgg.must_pass_blocks(ob, {c["bb"]}) for ob in oks)
+        whole = api in ("send_replace", "send")
+        why = ""
+        if not whole and api in ("send_if_modified", "send_modify"):
+            a = ctx.T(g).args_of(c)
+            cl = [x for x in a if x[0] == "closure"]
+            h = ctx.F.by_qname.get(cl[0][1], [None])[0] if cl else None
+            if h is not None:
+                Th = ctx.T(h)
+                cfh = ctx.cfg(h)
+                wr = [bi for bi, b in enumerate(h.blocks) for st in b["s"] if st["k"] == "assign" and st["p"].get("pr") == ["*"] and h.ty(st["p"]["t"]).s == BSS] if all("t" in st["p"] for b in h.blocks for st in b["s"] if st["k"] == "assign") else []
+                rets = cfh.returns()
+                whole = bool(wr) and all(cfh.must_pass_blocks(r, set(wr)) for r in rets)
+                if api == "send_if_modified":
+                    from .common import ret_truths
+                    from engine.guards import Walker
+                    tr = ret_truths(ctx, Walker(ctx, h, []), h, {})
+                    whole = whole and tr == {True}
+                why = "the closure given to %s does not store the announced state on every path (or does not report a change)" % api
+        ctx.ob(R, "every verified announcement is published", always and whole, "on every successful path the handler replaces the announced state with the request's state" if always and whole else
+               ("the handler can succeed without publishing the (verified) announcement" if not always else why or "the announced state is published through %s" % api), g.loc(c["t"].get("ln")))
     # nobody else writes a watch of BlockStoreState in the gossip runner (the announced state is only what the peer pushed)
     others = []
     for f in ctx.F.fns:
